@@ -5,6 +5,9 @@
 //!   E = {"k":"reply","snap":{"P":1,..}}                                    answer the pending GetAll
 //!     | {"k":"chg","iface":"own"|"other","src":"svc"|"stranger","path":"own"|"other","changed":{..},"inval":[..]}
 //!     | {"k":"q"}                                                           run to quiescence, observe
+//!     | {"k":"fetch","prop":"P"}        take the next item of P's stream and start item.get() (sends Properties.Get
+//!                                       when P is invalidated; the reply's value is stored in the cache)
+//!     | {"k":"getreply","prop":"P","val":v}   answer that Get
 //! Observation "evs": the same events in receive order plus
 //!   {"k":"ready"}            the cache reported ready (mode yes: build() returned; lazy: get_property got past ready())
 //!   {"k":"streams"}          property streams for P and Q exist from here on
@@ -109,6 +112,9 @@ pub fn run_case(case: &J) -> J {
     if let Some(s) = ready_probe.as_mut() {
         quiesce(&mut bus, Some(&conn), &mut [s], true);
     }
+    let mut fetch_call: Option<crate::fakebus::Call> = None;
+    let mut fetch_get: Option<Slot<'static, zbus::Result<u32>>> = None;
+    let mut pending_fetched: Option<i64> = None;
     let mut getall = bus.take_call("GetAll");
     let getall_seen = getall.is_some();
 
@@ -131,6 +137,18 @@ pub fn run_case(case: &J) -> J {
                 log.push(e.clone());
             }
             "q" => {
+                // the refetch in flight (PropertyChanged::get) gets its turn after zbus' own tasks
+                if let Some(g) = fetch_get.as_mut() {
+                    quiesce(&mut bus, Some(&conn), &mut [g], false);
+                    if g.done() {
+                        let v = match g.out.take() {
+                            Some(Ok(v)) => v as i64,
+                            _ => -2,
+                        };
+                        pending_fetched = Some(v);
+                        fetch_get = None;
+                    }
+                }
                 if lazy {
                     match ready_probe.as_mut() {
                         Some(s) => quiesce(&mut bus, Some(&conn), &mut [s], false),
@@ -166,6 +184,10 @@ pub fn run_case(case: &J) -> J {
                         quiesce(&mut bus, Some(&conn), &mut [], false);
                     }
                 }
+                log.push(json!({"k":"q"}));
+                if let Some(v) = pending_fetched.take() {
+                    log.push(json!({"k":"fetched","val":v}));
+                }
                 if ready {
                     let p = proxy.as_ref().unwrap();
                     let mut m = Map::new();
@@ -179,7 +201,42 @@ pub fn run_case(case: &J) -> J {
                     }
                     log.push(json!({"k":"obs","cached":m}));
                 }
-                log.push(json!({"k":"q"}));
+            }
+            "fetch" => {
+                // take the next item of the property's stream and start its get(): for an invalidated property
+                // this sends Properties.Get and stores the reply's value in the cache
+                let prop = e["prop"].as_str().unwrap();
+                let mut got_item = false;
+                let mut sent = false;
+                if let Some((_, s)) = streams.iter_mut().find(|(n, _)| *n == prop) {
+                    let mut nx = Slot::new(s.next());
+                    quiesce(&mut bus, Some(&conn), &mut [&mut nx], false);
+                    if let Some(Some(item)) = nx.out.take() {
+                        got_item = true;
+                        let item: &'static zbus::proxy::PropertyChanged<'static, u32> = Box::leak(Box::new(item));
+                        let mut g: Slot<'static, zbus::Result<u32>> = Slot::new(item.get());
+                        quiesce(&mut bus, Some(&conn), &mut [&mut g], false);
+                        fetch_call = bus.take_call("Get");
+                        sent = fetch_call.is_some();
+                        if g.done() {
+                            pending_fetched = Some(match g.out.take() {
+                                Some(Ok(v)) => v as i64,
+                                _ => -2,
+                            });
+                        } else {
+                            fetch_get = Some(g);
+                        }
+                    }
+                }
+                log.push(json!({"k":"fetch","prop":prop,"got_item":got_item,"get_sent":sent}));
+            }
+            "getreply" => {
+                if let Some(c) = fetch_call.take() {
+                    bus.release(&FakeBus::reply(&c, SVC, &Value::U32(e["val"].as_u64().unwrap() as u32)));
+                    log.push(e.clone());
+                } else {
+                    log.push(json!({"k":"skipped-getreply"}));
+                }
             }
             k => panic!("unknown event kind {k}"),
         }
